@@ -170,6 +170,7 @@ struct Model {
       case MK_RALL: return x >= o;              // every element >= o
       case MK_RNONE: return !(o == x || o == x + 1);
       case MK_RANY: return o == x || o == x + 1;
+      case MK_RNOTIS: return x != o;            // !range_is(o, o + 1, o)
     }
     return false;
   }
